@@ -1,6 +1,6 @@
 """C17 - IRI patterns and examples come from the data."""
 from checks import strfn_check
-from harness import shims
+from harness import shims, stage
 from harness.common import finish, run_pool, seed
 from symx import selftest
 
@@ -17,6 +17,11 @@ def main(tier, t0):
                                        structure_filter=lambda st: st["name"] in structs, cfg={"fixed_flags": {"remove_empty_shapes": True, "disable_exact_cardinality": False},
                                             # the SHACL rendering (sh:pattern) of both runs is produced and judged too for the stem-only pair
                                             "want_shacl": opt == {"detect_minimal_iri": True}})
+    # instances drawn from 1..3 namespaces with shared / unshared path segments, bare schemes, too short stems
+    for opt in ({"detect_minimal_iri": True}, {"examples_mode": "all", "detect_minimal_iri": True}):
+        tasks += stage_check.tasks_for("C17", tier, scenario="pair:e2e:" + json.dumps(opt, sort_keys=True), judge="C17e", sizes=lambda t, k: [k + 1] if t == "quick" else [k, k + 1, k + 2],
+                                       structures=stage.namespace_structures(),
+                                       cfg={"fixed_flags": {"remove_empty_shapes": True, "disable_exact_cardinality": False}, "want_shacl": opt == {"detect_minimal_iri": True}})
     results = run_pool(tasks, budget_s=600 if tier == "quick" else 3000)
     m = strfn_check.meta("C17")
     sm = step_check.meta("C17")
